@@ -41,6 +41,7 @@ func init() {
 			// the handlers a setup returns must be safe for every request: same rules as C01 on the handler scope
 			_, hpred, hfns := handlerScope(c)
 			runSafety(c, "C19.HANDLER.", hfns, hpred, "NILPATH", "NILSRC", "BOUNDS", "MAPWRITE", "FUNCNIL", "ARITH")
+			c.R.Floor("C19.SETUP.POOL", 2)
 			c.R.Floor("C19.SETUP.BOUNDS", 25)
 			c.R.Floor("C19.SETUP.FAMILY", 8)
 			c.R.Floor("C19.SETUP.HANDLER-OR-ERROR", 23)
